@@ -199,8 +199,9 @@ notation!(
 		const magic: u32 = 0xCAFEBABEu32,
 		mut minor_version: u16,
 		mut major_version: u16,
-		const constant_pool_count: u16 = this.constant_pool.len() + 1,
-		mut constant_pool: Vec<CpInfo> {constant_pool_count - 1}; Some(&constant_pool),
+		// the number of pool indices plus one, `Long` and `Double` entries take up two indices each
+		const constant_pool_count: u16 = pool_slots(&this.constant_pool) + 1,
+		mut constant_pool: Vec<CpInfo> slots {constant_pool_count - 1}; Some(&constant_pool),
 		mut access_flags: u16,
 		mut this_class: u16,
 		mut super_class: u16,
@@ -323,11 +324,39 @@ notation!(
 	}
 );
 
+impl CpInfo {
+	/// The number of constant pool indices this entry takes up: two for [`CpInfo::Long`] and [`CpInfo::Double`], one otherwise.
+	///
+	/// The entry after a `Long` or `Double` at index `n` has the index `n + 2`; there's no entry for the index `n + 1`.
+	pub fn slots(&self) -> usize {
+		match self {
+			CpInfo::Long { .. } | CpInfo::Double { .. } => 2,
+			_ => 1,
+		}
+	}
+}
+
+fn pool_slots(pool: &[CpInfo]) -> usize {
+	pool.iter().map(CpInfo::slots).sum()
+}
+
+/// The entry at the given constant pool index, if there's one.
+fn pool_get(pool: &[CpInfo], index: u16) -> Option<&CpInfo> {
+	let mut slot = 1;
+	for entry in pool {
+		if slot >= index as usize {
+			return (slot == index as usize).then_some(entry);
+		}
+		slot += entry.slots();
+	}
+	None
+}
+
 fn pool_has_utf8(pool: Option<&Vec<CpInfo>>, index: u16, value: &[u8]) -> Result<bool, std::io::Error> {
 	let Some(pool) = pool else {
 		return Err(std::io::Error::other("expected to have constant pool at this point of reading"));
 	};
-	let Some(entry) = pool.get((index - 1) as usize) else {
+	let Some(entry) = pool_get(pool, index) else {
 		return Err(std::io::Error::other(format!("no constant pool entry at position {}", index)));
 	};
 	let CpInfo::Utf8 { bytes } = entry else {
